@@ -14,18 +14,21 @@ import (
 
 // Desc is a C16 case descriptor.
 type Desc struct {
-	Kind     string `json:"kind"` // xfer | unblock | e2e-cli | e2e-netconf
+	Kind     string `json:"kind"` // xfer | unblock | cycle | silence | lastwords | e2e-cli | e2e-netconf
 	T        string `json:"transport"`
 	ReadSize int    `json:"read_size"`
-	Size     int    `json:"size,omitempty"`      // payload bytes per direction
-	Payload  string `json:"payload,omitempty"`   // prng | debruijn
-	Mode     string `json:"mode,omitempty"`      // duplex | lockstep | updown
-	How      string `json:"how,omitempty"`       // unblock: close | peer-gone
-	Version  string `json:"version,omitempty"`   // e2e-netconf: 1.0 | 1.1
-	Early    int    `json:"early,omitempty"`     // telnet xfer: bytes the peer sends immediately on accept (inside the client's negotiation window)
-	EarlyNeg bool   `json:"early_neg,omitempty"` // telnet xfer: preceded by three option negotiations
-	Cycles   int    `json:"cycles,omitempty"`    // cycle: Open/Close rounds on one Transport object
-	Paced    bool   `json:"paced,omitempty"`     // e2e-netconf: slow log sink (30 ms per lone return) + device that sends replies in two halves 80 ms apart
+	Size     int    `json:"size,omitempty"`              // payload bytes per direction
+	Payload  string `json:"payload,omitempty"`           // prng | debruijn
+	Mode     string `json:"mode,omitempty"`              // duplex | lockstep | updown
+	How      string `json:"how,omitempty"`               // unblock: close | peer-gone
+	Version  string `json:"version,omitempty"`           // e2e-netconf: 1.0 | 1.1
+	Early    int    `json:"early,omitempty"`             // telnet xfer: bytes the peer sends immediately on accept (inside the client's negotiation window)
+	EarlyNeg bool   `json:"early_neg,omitempty"`         // telnet xfer: preceded by three option negotiations
+	SockTOms int    `json:"socket_timeout_ms,omitempty"` // silence: WithTimeoutSocket
+	Factor10 int    `json:"silence_x10,omitempty"`       // silence: peer silence = Factor10/10 x socket timeout
+	PauseMs  int    `json:"reader_away_ms,omitempty"`    // lastwords: how long nobody reads while the peer says its last words and leaves
+	Cycles   int    `json:"cycles,omitempty"`            // cycle: Open/Close rounds on one Transport object
+	Paced    bool   `json:"paced,omitempty"`             // e2e-netconf: slow log sink (30 ms per lone return) + device that sends replies in two halves 80 ms apart
 	Seed     int64  `json:"seed"`
 }
 
